@@ -195,12 +195,19 @@ func (e *Engine) mergeTwo(a, b *State) *State {
 		}
 	}
 	// input-name counters: take the max
+	// input-name counters must agree, otherwise later requests of that name are ambiguous (native replay
+	// counts per path): such names are poisoned
 	for k2, v := range b.names {
 		if n.names == nil {
 			n.names = map[string]int{}
 		}
-		if n.names[k2] < v {
-			n.names[k2] = v
+		if av, ok := a.names[k2]; !ok || av != v {
+			n.names[k2] = -1
+		}
+	}
+	for k2 := range a.names {
+		if _, ok := b.names[k2]; !ok {
+			n.names[k2] = -1
 		}
 	}
 	e.merges++
